@@ -1,7 +1,7 @@
 #!/venv/bin/python
 """Which checks catch which seeded change: applies each seeded/<id>/patch.diff to a scratch copy and runs ALL 20 quick checks.
 Writes selftest/matrix.json and prints one line per change.
-  selftest/matrix.py [ids,comma,separated] [--props all|own+broad]     (own+broad = the change's own property + the seven widest checks)"""
+  selftest/matrix.py [ids,comma,separated] [--props all|own+broad|own]     (own+broad = the change's own property + the seven widest checks)"""
 import concurrent.futures, json, os, shutil, subprocess, sys, tempfile
 
 VERIF = os.path.dirname(os.path.dirname(os.path.abspath(__file__)))
@@ -15,6 +15,8 @@ MODE = "all"
 def props_for(name):
     if MODE == "all":
         return PROPS
+    if MODE == "own":
+        return [json.load(open(os.path.join(VERIF, "seeded", name, "meta.json")))["property"]]
     own = json.load(open(os.path.join(VERIF, "seeded", name, "meta.json")))["property"]
     return sorted(set([own] + BROAD))
 
